@@ -738,6 +738,11 @@ class NNDescent:
             data = check_array(data, dtype=np.float32, accept_sparse="csr", order="C")
             self._input_dtype = np.float32
 
+        if issparse(data) and not data.has_sorted_indices:
+            # Work on a sorted copy: the sparse kernels and the RP forest need
+            # sorted indices, and the caller's matrix must not be modified.
+            data = data.sorted_indices()
+
         self._raw_data = data
 
         if not tree_init or n_trees == 0 or init_graph is not None:
@@ -1766,7 +1771,7 @@ class NNDescent:
             if not isspmatrix_csr(query_data):
                 query_data = csr_matrix(query_data, dtype=np.float32)
             if not query_data.has_sorted_indices:
-                query_data.sort_indices()
+                query_data = query_data.sorted_indices()
 
             indices, dists, _ = self._search_function(
                 query_data.indices,
